@@ -85,6 +85,24 @@ def cases(rng, tier, Case):
             g = script(ops)
             res.append(Case("hist 100 R %s" % g, "full", {"g": g, "role": "full"}))
             res.append(Case("hist 100 R %s" % script(erased), "erased", {"g": g, "role": "erased"}))
+    # use of a parser (or one ruler) before any rule exists, configuration afterwards
+    for pat in ("P;+C;P", "D;+C;P", "P;+n;P;+e;P", "+n;-n;P;+CW;P", "P;+nebp;P;-b;P;+b;P", "P;+m;+l;P", "+C;-b;-a;P;+3;+4;P", "P;+s;P;+1;P"):
+        ops = []
+        for part in pat.split(";"):
+            ops.append(("P", probe2) if part == "P" else ("D", "") if part == "D" else (part[0], part[1:]))
+        ops += [("?", "axml"), ("D", ""), ("P", probe2 + "\n\n# h\n\n- i")]
+        erased = [x for i, x in enumerate(ops) if x[0] != "P" or i == len(ops) - 1]
+        g = script(ops)
+        res.append(Case("hist 100 R %s" % g, "full", {"g": g, "role": "full"}))
+        res.append(Case("hist 100 R %s" % script(erased), "erased", {"g": g, "role": "erased"}))
+    for pre in ("i", "d", "i;d", "c1;i"):
+        for body in ("a1,1", "a1,1;a2,2:l1", "a1,1;i;a2,2:b1", "a3,1:B;a1,2"):
+            tail6 = ["c1", "c2", "c3", "c9", "i", "d"]
+            full = pre.split(";") + body.split(";") + tail6
+            erased = [x for x in pre.split(";") + body.split(";") if x[0] not in "id"] + tail6
+            g = ";".join(full)
+            res.append(Case("ruler " + g, "rfull", {"g": g, "role": "rfull"}))
+            res.append(Case("ruler " + ";".join(erased), "rerased", {"g": g, "role": "rerased"}))
     # Ruler-level histories
     for _ in range(n):
         items = []
